@@ -635,9 +635,11 @@ impl<A: Send + 'static> Cell<A> {
                         });
                 };
             }
+            // (the update closure of node1 captures the cell of cells too)
             node1.add_update_dependencies(vec![
                 Dep::new(node1.gc_node.clone()),
                 Dep::new(node2.gc_node.clone()),
+                cca.to_dep(),
             ]);
             {
                 let mut update = node1.data.update.write();
